@@ -2,6 +2,7 @@ package props
 
 import (
 	"bytes"
+	"encoding/base64"
 	"fmt"
 	"math/rand/v2"
 	"runtime"
@@ -60,6 +61,9 @@ func c13SecurityHeads(msg string) (older, newer string, ok bool) {
 	return older, newer, true
 }
 
+// c13LongCosig is a well-formed signature line by an unknown key, 70 KiB long.
+var c13LongCosig = []byte("\u2014 witness.example/cosigner " + base64.StdEncoding.EncodeToString(bytes.Repeat([]byte{0xab, 0x01, 0x7f}, 70*1024/4)) + "\n")
+
 type c13Client struct {
 	cl *sumdb.Client
 	id int
@@ -107,6 +111,7 @@ func runC13(c *mon.Ctx) {
 	if c.Batch == 0 {
 		c13KnownUnreconciled(c, key)
 	}
+	c13BogusEmptyHead(c, key)
 	for i := 0; i < c.Share(c.Scale(480, 12000)); i++ {
 		c13Growing(c, key, i)
 	}
@@ -314,6 +319,10 @@ func c13Sequential(c *mon.Ctx, A, B *world.Log, p, a, b, h int, long bool, warm 
 	w := world.New(c01Name, A.Key, A, B)
 	cur, size := A, a
 	mixing := false
+	cosig := r.IntN(5) == 0
+	if cosig {
+		c.Class("scenario:fork-heads-carry-a-70KiB-cosignature-line")
+	}
 	w.Remote = func(cl int, path string) ([]byte, error) {
 		if mixing && strings.HasPrefix(path, "/tile/") {
 			// per hash slot: the other branch's hash wherever that branch has the complete subtree
@@ -338,7 +347,15 @@ func c13Sequential(c *mon.Ctx, A, B *world.Log, p, a, b, h int, long bool, warm 
 				return out, nil
 			}
 		}
-		return world.ServeLog(cur, func() int { return size })(cl, path)
+		d, err := world.ServeLog(cur, func() int { return size })(cl, path)
+		if cosig && cur == B && err == nil && (strings.HasPrefix(path, "/lookup/") || path == "/latest") {
+			// B's operator has its heads co-signed by a witness this client does not know; the witness's
+			// signature line is very long (70 KiB) and stands before the database's own
+			if i := bytes.LastIndex(d, []byte("\n\n")); i >= 0 {
+				d = append(append(append([]byte(nil), d[:i+2]...), c13LongCosig...), d[i+2:]...)
+			}
+		}
+		return d, err
 	}
 	nextID := 1
 	var cc *c13Client
@@ -1006,6 +1023,72 @@ func c13Growing(c *mon.Ctx, key *world.Key, i int) {
 		if e.Op == "WriteConfig" && e.Res == "conflict" {
 			c.Class("growing:write-conflict-observed")
 			break
+		}
+	}
+}
+
+// c13BogusEmptyHead: the operator signs a head of size 0 whose hash is not the hash of the empty tree.
+// No log has such a head, so it is inconsistent with every tree, the client's own included: (0) served
+// with a record to a client whose stored head is A#5, (1) found as the stored head by a starting client.
+// Either way the lookup that meets it must fail and the stored head must stay what it was.
+func c13BogusEmptyHead(c *mon.Ctx, key *world.Key) {
+	item := 0
+	for _, h := range []int{1, 2, 3, 8} {
+		for variant := 0; variant < 2; variant++ {
+			mine := c.Mine(item)
+			item++
+			id := fmt.Sprintf("bogus-empty-head:h%d:v%d", h, variant)
+			if !mine || !c.Want(id) {
+				continue
+			}
+			c.WAL(id, nil)
+			const a = 5
+			A := world.NewLog("A", a, a, key)
+			w := world.New(c01Name, key, A)
+			bogus := world.Sign(world.FormatTreeText(0, [32]byte{1, 2, 3, 4}), key)
+			serv := world.ServeLog(A, func() int { return a })
+			poison := false
+			w.Remote = func(cl int, path string) ([]byte, error) {
+				d, err := serv(cl, path)
+				if poison && err == nil && strings.HasPrefix(path, "/lookup/") {
+					if _, _, rest, ok := world.ParseLookup(d); ok {
+						return append(append([]byte(nil), d[:len(d)-len(rest)]...), bogus...), nil
+					}
+				}
+				return d, err
+			}
+			world.Activate(w)
+			cl := sumdb.NewClient(w.Client(1))
+			cl.SetTileHeight(h)
+			w.Register(cl, 1)
+			info := map[string]any{"h": h, "variant": variant}
+			var e1, e2 error
+			c.Guard(id, func() any { return info }, func() {
+				if variant == 0 {
+					_, e1 = cl.Lookup(A.Mods[0].Path, A.Mods[0].Vers)
+				} else {
+					w.Config[c01Name+"/latest"] = append([]byte(nil), bogus...)
+				}
+				before := append([]byte(nil), w.Config[c01Name+"/latest"]...)
+				poison = variant == 0
+				_, e2 = cl.Lookup(A.Mods[1].Path, A.Mods[1].Vers)
+				after := w.Config[c01Name+"/latest"]
+				c.Eval(1)
+				info["first_lookup"], info["second_lookup"] = fmt.Sprint(e1), fmt.Sprint(e2)
+				info["trace_tail"] = w.TraceTail(16)
+				switch {
+				case e1 != nil:
+					c.Violation("honest-lookup-failed", id, info)
+				case e2 == nil:
+					c.Violation("lookup-succeeded-on-inconsistent-head", id, info)
+				case !bytes.Equal(before, after):
+					info["config_before"], info["config_after"] = string(before), string(after)
+					c.Violation("stored-head-changed-by-refused-fork", id, info)
+				default:
+					c.Class(fmt.Sprintf("bogus-empty-head:variant=%d:refused", variant))
+				}
+			})
+			world.Deactivate()
 		}
 	}
 }
